@@ -6,7 +6,8 @@ import "verifharness/internal/corr"
 
 func main() {
 	corr.Main(map[string]corr.Family{
-		"txn":  runTxn,
-		"linz": runLinz,
+		"txn":      runTxn,
+		"linz":     runLinz,
+		"txnsched": runTxnSched,
 	})
 }
